@@ -42,6 +42,9 @@ def seq_of(rng):
 def gen(rng, tier, open_keys):
     n = 1500 if tier == "quick" else 80000
     out = []
+    # the follow-up operations come from C16's generator: the shapes of C16's open findings
+    # (Element.Swap, Item.Remove on the head item) are avoided here as they are there
+    open_keys = set(open_keys) | {f["key"] for f in C.known_findings("C16") if f.get("status") == "open"}
     for i in range(n):
         g = c16.Gen(rng, 0, open_keys)
         g.emit(["newlist"]); g.emit(["newlist"])
